@@ -82,3 +82,14 @@ Proof.
     split; [exact A|]. split; [|exact C].
     destruct (cond_false _ _ _ B) as [X | X]; [left; lra | right; lra].
 Qed.
+
+(* corner: dt_last_done = 0 (an N-body "step" of zero length, or JANUS before /repo 6b44a1d): forward := -1, t0 = rt, the loop
+   condition is false at once: no sub-step is requested and the ODE time stays at rt, whatever the stepper would answer *)
+Theorem ode_run_zero_step : forall oracle rt prop0, ode_run RNum oracle rt 0 prop0 = ([], rt - 0, true).
+Proof.
+  intros oracle rt prop0. unfold ode_run. cbn [nltb nzero none nneg nsub RNum]. unfold Rltb at 1.
+  destruct (Rlt_dec 0 0) as [H | _]; [lra|].
+  assert (C : loop_cond RNum rt (rt - 0) (- (1)) = false).
+  { unfold loop_cond. cbn [nltb nmul RNum]. unfold Rltb at 1. destruct (Rlt_dec ((rt - 0) * - (1)) (rt * - (1))); [lra | reflexivity]. }
+  destruct oracle as [| [s p] o]; cbn [ode_loop]; rewrite C; reflexivity.
+Qed.
